@@ -285,14 +285,22 @@ def classify_path(ap):
     if not q:
         return (b or 'skip') + tail
     parts = []
+    run = None      # an in-loop copy of consecutive bytes of the match: (first index, next index)
     for x in q:
         v, loop = x[1], x[2]
+        k = next((k for k in range(0, 8) if _is_yytext_byte(v, k)), None)
+        if loop and k is not None:
+            if run is not None and k == run[1]:
+                run = (run[0], k + 1)       # a further iteration of the same copy loop
+                continue
+            run = (k, k + 1)
+            parts.append('all' if k == 0 else 'from%d' % k)
+            continue
+        run = None
         if v[0] == 'c':
             parts.append('const(%d)' % (v[1] & 0xff))
-        elif _is_yytext_byte(v, 0):
-            parts.append('all' if loop else 'byte0')
-        elif _is_yytext_byte(v, 1):
-            parts.append('from1' if loop else 'byte1')
+        elif k is not None:
+            parts.append('byte%d' % k)
         else:
             parts.append('?' + sym.render(v))
     return b + ','.join(parts) + tail
